@@ -257,7 +257,12 @@ fn parse_suppression_set(text: &str) -> Option<HashSet<String>> {
     return None;
   }
   let (_, rules) = after.split_once(':')?;
-  let set = rules.split(',').map(|r| r.trim().to_string()).collect();
+  // an id ends at the first space: a block comment carries its terminator, e.g. `/* ast-grep-ignore: id */`
+  let set = rules
+    .split(',')
+    .filter_map(|r| r.split_whitespace().next())
+    .map(|r| r.trim_end_matches("*/").to_string())
+    .collect();
   Some(set)
 }
 
